@@ -1,12 +1,5 @@
 SPECIFICATION Spec
-INVARIANT AtMostOnce
-INVARIANT DroppedNever
-INVARIANT QueuedOnce
-INVARIANT EveryOutcome
-INVARIANT CountersAgree
-INVARIANT ValidIndex
-INVARIANT SequentialEquivalence
-PROPERTY Termination
+INVARIANT NoLateQueued
 CHECK_DEADLOCK FALSE
 CONSTANTS
   NW <- NWv
